@@ -16,17 +16,17 @@ CHECKS = {
                 text="TLC checks NoEarlyLaunch on every interleaving of the scheduler model for all DAGs of the dag family; the real "
                      "scheduler is run under the deterministic engine on real task graphs (8 ways of embedding an upstream task), every "
                      "recorded step must be a step of the specification with equal projected state and the action property is evaluated on "
-                     "every recorded step. Embeddings now include a task held by a Meta parameter and an output handed on by a second task; dependents submitted after one of two upstream jobs has finished.", note=SCHED_NOTE),
+                     "every recorded step. Embeddings now include a task held by a Meta parameter and an output handed on by a second task; dependents submitted after one of two upstream jobs has finished; nested lists / lists of dicts of upstream tasks; real signals to a real experiment process with a dependent waiting (E2-restart signal cases).", note=SCHED_NOTE),
     "C06": dict(category="model_checking", engine="E1", design="5 (C06), 3.1, 4.1, 4.3",
                 technique="TLA+ XpmScheduler: TLC exhaustive (final-state invariants, deadlock freedom, liveness) + trace validation (E1)",
                 text="TLC explores every interleaving of loop callbacks, helper threads, process exits and main-thread calls for small DAG/token/"
                      "re-submission workloads (invariants TruthfulFinal, FinalAbsorbing, ResultIsFinal, WaitOnlyWhenAllFinal, deadlock = hang); "
                      "thousands of real executions (systematic for tiny workloads, seeded random otherwise) are validated step by step against "
-                     "the specification and every execution must end in the model's GoodEnd. The specification also covers experiment.stop() (SIGINT during the wait: Sigint / StopStep / WaitReturnStopped, family stop) and job processes killed from outside (no marker, stale pid file); priority ('starvation') schedules stretch the window of every kind of pending step; a hang of the real scheduler is an outcome, checked by a self-test.", note=SCHED_NOTE),
+                     "the specification and every execution must end in the model's GoodEnd. The specification also covers experiment.stop() (SIGINT during the wait: Sigint / StopStep / WaitReturnStopped, family stop) and job processes killed from outside (no marker, stale pid file); priority ('starvation') schedules stretch the window of every kind of pending step; a hang of the real scheduler is an outcome, checked by a self-test. Real-process halves: SIGINT / SIGTERM / SIGHUP sent to a real experiment process with running jobs (E2-restart) must leave truthful final states; the file token half (XpmTokenFS, E2-token) runs too, including the order of dependency registration and readiness check at submission (MC_TokenFS_addfirst holds, MC_TokenFS_checkfirst loses a wake-up; the hooked order of the real code must be the first).", note=SCHED_NOTE),
     "C07": dict(category="model_checking", engine="E1", design="5 (C07), 3.1",
                 technique="TLA+ XpmScheduler: TLC exhaustive over failing subsets + trace validation (E1)",
                 text="All failing subsets of chain/diamond DAGs are explored exhaustively by TLC (dependents cancelled, independents run, exit "
-                     "status); real executions with failing processes are validated against the specification. Killed job processes (no marker) and adopted jobs that die without marker are part of the model and of the plans; leaving the experiment early (counter mismatch) counts for this property; at the end every job whose upstream jobs succeeded must have run.", note=SCHED_NOTE),
+                     "status); real executions with failing processes are validated against the specification. Killed job processes (no marker) and adopted jobs that die without marker are part of the model and of the plans; leaving the experiment early (counter mismatch) counts for this property; at the end every job whose upstream jobs succeeded must have run. Start failures (the launcher raises) and memory-killed processes are plans; a livelock of the real scheduler is an outcome. Real signals to a real experiment process (E2-restart signal cases).", note=SCHED_NOTE),
     "C08": dict(category="model_checking", engine="E1", design="5 (C08), 3.1, 3.3",
                 technique="TLA+ XpmScheduler (in-process token) and XpmTokenFS (file token, several processes): TLC exhaustive Capacity / MutualExclusion + trace validation of E1 executions and of real multi-process token logs (E2-token)",
                 text="Capacity / conservation invariants checked by TLC for all interleavings with heterogeneous requests; real executions with "
@@ -50,20 +50,20 @@ CHECKS = {
                      "once / again after success' is checked by TLC on the job-directory model (2-3 competing launches, signals anywhere) and on "
                      "scripted races of 2-3 real job processes whose histories must be behaviours of the model. The first launch is preempted before each of its statements while a second launch arrives (every 4th statement quick, every statement thorough): a lock released before the success marker is written is rejected by the model; a second job created for a configuration that succeeded and never failed is reported.",
                 note=SCHED_NOTE + " E2 races are scripted (holder in body, waiter blocked on the lock, third arrival), not exhaustive at instruction level."),
-    "C10": dict(category="fault_enumeration", engine="E2", design="5 (C10), 3.2, 4.4",
+    "C10": dict(category="fault_enumeration", engine="E2+E1", design="5 (C10), 3.2, 4.4",
                 technique="TLA+ XpmJobDir: TLC exhaustive over signal x statement; fault enumeration signal x executed line of the real TaskRunner, histories validated by TLC (silent-step trace spec)",
                 text="Every k-th (quick) / every (thorough) executed line of run.py and of the task body is used as the instant of SIGKILL, SIGTERM "
                      "and SIGINT of a real generated job script (plus failing body, pre-existing .failed/.done, relaunches, competing launches); the "
                      "observed exit status, markers, lock state and body begin/end records of each history must be explained by a behaviour of "
                      "XpmJobDir, whose invariants (DoneOnlyIfBodyCompleted, HandledSignalInBody, NoPidAfterOwnEnd, LockHolderAlive) TLC "
-                     "checks exhaustively. Preemption of the job process before its k-th statement with a competing launch; a job started with SIGINT ignored (nohup) that receives a signal in its body must act on it before a deadline; the second failure-marker write of a handled signal is a model step.",
+                     "checks exhaustively. Preemption of the job process before its k-th statement with a competing launch; a job started with SIGINT ignored (nohup) that receives a signal in its body must act on it before a deadline; the second failure-marker write of a handled signal is a model step. Task bodies that fork once or repeatedly while the signal arrives (the handler must end the process even where exceptions are swallowed: F21, MC_JobDir_F21 shows the defect on the model); the process preempted before each statement of its signal handler while a second launch waits for the lock; the scheduler's half of the protocol (run lock held over spawn and pid file, start failures, killed processes) is checked on real scheduler executions under E1 (clause world).",
                 note="Trusted: kernel semantics of fcntl locks / signals; line granularity of sys.settrace for the fault position; the harness plays the launcher side (lock, spawn, pid file, unlock)."),
-    "C11": dict(category="fault_enumeration", engine="E1", design="5 (C11), 3.1, 4.3",
+    "C11": dict(category="fault_enumeration", engine="E1+E2", design="5 (C11), 3.1, 4.3",
                 technique="TLA+ XpmScheduler with Die/Restart: TLC exhaustive (restart family) + fault sweep (scheduler death after every k-th event) over real scheduler executions validated by TLC",
                 text="The scheduler model includes SIGKILL of the scheduler at any point and a restart on the same workspace (adoption through "
                      "the pid file, done markers, run lock held by surviving job processes); TLC checks body-exactly-once invariants exhaustively "
                      "and the real scheduler is killed after every k-th recorded event of base schedules (with long-running and short jobs), "
-                     "restarted, and the whole two-run history validated against the specification. Real-process half (E2-restart): the real experiment process is SIGKILLed before the k-th statement (all threads) of scheduler/base.py, commandline.py, scriptbuilder.py, connectors/local.py with real gated job processes; the same experiment is run again (jobs still running or already ended) and must end with the same successes and every body executed exactly once. Ctrl-C during the wait followed by the same experiment again is part of the model (family stop).",
+                     "restarted, and the whole two-run history validated against the specification. Real-process half (E2-restart): the real experiment process is SIGKILLed before the k-th statement (all threads) of scheduler/base.py, commandline.py, scriptbuilder.py, connectors/local.py with real gated job processes; the same experiment is run again (jobs still running or already ended) and must end with the same successes and every body executed exactly once. Ctrl-C during the wait followed by the same experiment again is part of the model (family stop). Jobs that can be adopted (pid file + live process, also when the orphan is suspended) must not be launched again; a job process killed from outside (code 9: no marker, stale pid file) is part of the model.",
                 note=SCHED_NOTE + " Scheduler death is injected at loop-callback boundaries of the in-process engine; real-process kills are covered for the job side by C10."),
     "C01": dict(category="model_checking", engine="E3", design="5 (C01), 3.5, 4.2",
                 technique="TLA+ XpmConfig/MC_Config: TLC exhaustive over seal/request/assign/submit histories (IdIsCanonical) + TLC-generated behaviours replayed on real objects with byte-level stream comparison + code->spec stream validation",
@@ -118,7 +118,7 @@ CHECKS = {
                      "structure family and validates the order produced by the real code for random graphs; every graph is written and loaded "
                      "three ways (and written again after loading) and compared node by node with the abstract graph (classes, every value incl. "
                      "ignored ones, meta flags, sharing, pre/init tasks, task links, identifiers recomputed); real job parameter files are "
-                     "loaded and executed by experimaestro.run in a fresh interpreter and the values and tags seen by the task are compared. from_task_dir on a task directory whose parameter file defines other submitted tasks returns that directory's task.",
+                     "loaded and executed by experimaestro.run in a fresh interpreter and the values and tags seen by the task are compared. from_task_dir on a task directory whose parameter file defines other submitted tasks returns that directory's task. A failed job submitted again with other Meta values in a second real experiment process must observe its second configuration (parameter file rewritten before the launch).",
                 note="The abstract graph of XpmConfig is the reference of the isomorphism; Path-typed data parameters (DataPath serialisation) are not covered."),
     "C13": dict(category="model_checking", engine="E3", design="5 (C13), 3.5",
                 technique="TLA+ XpmConfig InstNodes/InstPre: TLC invariants + instantiated sets of real graphs validated by TLC + call-count/wiring comparison with the abstract graph",
@@ -139,21 +139,21 @@ CHECKS = {
                 text="Runs of experiments ending normally / by exception / by kill, interleaved with orphans and jobs clean, are explored by TLC "
                      "(3 jobs, 2 experiments); random behaviours of depth 6 are replayed with the real experiment object (real scheduler thread, "
                      "simulated instant job processes) and the symlink trees, backup directories and the output of `orphans` compared with the "
-                     "specification after every action; two real processes contend for the same experiment. GENERATE_ONLY runs (touch neither index nor backup), experiment names that are substrings of one another, and a process waiting to enter a running experiment must not destroy the record of the plan the running process completes.",
+                     "specification after every action; two real processes contend for the same experiment. GENERATE_ONLY runs (touch neither index nor backup), experiment names that are substrings of one another, and a process waiting to enter a running experiment must not destroy the record of the plan the running process completes. The workspace is designated by an absolute path, by a path relative to the current directory or by settings whose path was overridden with a relative one (run-experiment --workspace --workdir); every index link must lead to its job directory. XpmOrphansRace (TLC + a TLAPS proof) for the listing order of `orphans`.",
                 note="Job processes are simulated; the kill of the experiment process is simulated by abandoning the experiment object without running __exit__."),
     "C18": dict(category="model_checking", engine="E3", design="5 (C18), 3.6",
                 technique="TLA+ XpmFunctions (match part): TLC checks MatchSound over requests x hosts and is the reference evaluator for match(), the request algebra, the text grammar and operand purity (B3)",
                 text="Match / And / Mul / union order are transcribed in TLA+; TLC checks Match => Satisfies for 129 request expressions x 240 hosts "
                      "(unsorted GPU lists, min_memory, min_gpu, max_duration) and prints the expected result of every pair; the implementation is "
                      "evaluated on every pair, every combined request is compared with the specification's normal form, operands are "
-                     "snapshotted before/after & and *, and the printed text of each expression (random whitespace) is parsed and compared, twice. Every spelling of a duration the grammar accepts (h, hours, d, days, with or without space).",
+                     "snapshotted before/after & and *, and the printed text of each expression (random whitespace) is parsed and compared, twice. Every spelling of a duration the grammar accepts (h, hours, d, days, with or without space). FindIn: the real LauncherRegistry with a generated launchers.py must return a launcher exactly when the specification says one of the hosts matches (cpu & cpu, mixed GPU requests).",
                 note="humanfriendly's decimal sizes are trusted; GPU pairing is position-wise as in the code (sound, not complete)."),
     "C19": dict(category="model_checking", engine="E3", design="5 (C19), 3.6, 3.4",
                 technique="TLA+ XpmFunctions (filter part) as enumerated oracle for createFilter + TLA+ XpmWorkspace histories with jobs clean / orphans replayed through the real CLI",
                 text="Filter evaluation (=, in, not in, ~, and/or chains evaluated from the left) is transcribed; TLC enumerates 732 expressions x "
                      "128 tag/state/name assignments and the compiled filters are compared on all of them; `jobs clean` (filter, --experiment, "
                      "--perform, running jobs) and `orphans` (--clean, --ignore-old) are actions of XpmWorkspace whose generated histories are "
-                     "replayed on real workspaces through the click commands, the directory tree being compared after each. Regular expressions with escapes; XpmOrphansRace: the listings of `orphans` are not atomic while a new run of the experiment moves the links to the backup index -- TLC shows that index-before-backup is safe and the other order is not; the real command is interleaved with a real experiment start at every step of its listings.",
+                     "replayed on real workspaces through the click commands, the directory tree being compared after each. Ill-formed filters must be rejected, not half-evaluated; regular expressions with escapes; XpmOrphansRace: the listings of `orphans` are not atomic while a new run of the experiment moves the links to the backup index -- TLC shows that index-before-backup is safe and the other order is not; the real command is interleaved with a real experiment start at every step of its listings.",
                 note="String-valued tags; parentheses are not accepted by the filter grammar entry point and are outside the domain."),
 }
 
@@ -197,6 +197,18 @@ m = {
         {"name": "E1", "path": "/verif/xv/e1.py", "serves_properties": ["C04", "C05", "C06", "C07", "C08", "C09", "C11"],
          "kind_free_text": "deterministic in-process engine: the real scheduler coroutines on a controllable event loop; records one "
                            "event + full projected state per step; validated by TLC against spec/XpmScheduler_Trace.tla"},
+        {"name": "E2-job", "path": "/verif/xv/e2_jobdir.py", "serves_properties": ["C05", "C10", "C11"],
+         "kind_free_text": "real generated job scripts run by experimaestro.run in real processes; faults (KILL/TERM/INT/pause) raised "
+                           "from inside at the k-th executed line; histories validated by TLC against spec/XpmJobDir_Trace.tla"},
+        {"name": "E2-token", "path": "/verif/xv/e2_token.py", "serves_properties": ["C06", "C08", "C09"],
+         "kind_free_text": "2-3 real processes sharing one CounterToken directory, scripted with pause points and deaths; hook event "
+                           "logs validated by TLC against spec/XpmTokenFS_Trace.tla"},
+        {"name": "E2-restart", "path": "/verif/xv/e2_restart.py", "serves_properties": ["C04", "C06", "C07", "C11", "C12"],
+         "kind_free_text": "a real experiment process with real gated jobs, SIGKILLed before its k-th statement (all threads) or "
+                           "signalled, then the same experiment again; body counts, adoptions and outputs compared with XpmScheduler's restart rules"},
+        {"name": "E3", "path": "/verif/xv/cfgreal.py", "serves_properties": ["C01", "C02", "C03", "C12", "C13", "C14", "C15", "C16", "C17", "C18", "C19", "C20"],
+         "kind_free_text": "in-process: real configuration objects / workspaces / CLI driven along TLC-generated behaviours (spec->code) "
+                           "and observed values sent to TLC as reference evaluator (code->spec)"},
     ],
     "checks": checks,
     "notes": "All checks: ./check <Cxx> --tier quick|thorough [--replay file]. Exit 0 held / 1 VIOLATION / 2 machinery failure.",
